@@ -6,6 +6,7 @@ import (
 	"sort"
 	"strings"
 
+	"grog/internal/config"
 	"grog/internal/dag"
 	"grog/internal/label"
 	"grog/internal/model"
@@ -123,8 +124,18 @@ func detectOutputConflicts(graph *dag.DirectedTargetGraph) error {
 	return fmt.Errorf("conflicting outputs detected between independent targets:\n%s\nNote: These overlapping outputs create a race condition that can lead to unexpected or inconsistent build results.", strings.Join(conflicts, "\n"))
 }
 
+// cleanOutputPath returns the path conflicts are decided on: the output resolved against the
+// workspace root and expressed relative to it, i.e. the same canonical form the workspace
+// boundary check judges. Comparing only the cleaned join of package and identifier would keep
+// the leading ".." of an output that leaves the workspace lexically and names its way back in
+// ("../../ws/pkg/a" in a workspace directory "ws"), so that it never equals "pkg/a".
 func cleanOutputPath(target *model.Target, output string) string {
-	return filepath.Clean(filepath.Join(target.Label.Package, output))
+	canonical, err := workspaceRelativePath(config.Global.WorkspaceRoot, target.Label.Package, output)
+	if err != nil {
+		// no usable workspace root: fall back to the path relative to the package
+		return filepath.Clean(filepath.Join(target.Label.Package, output))
+	}
+	return canonical
 }
 
 func pathWithin(path, dir string) bool {
